@@ -79,7 +79,7 @@ theorem Base.of_frame {E : Env} {P : State → Prop} (hM : IgnoresMembership P) 
     (startProbe : ∀ m, Pres P (modS fun s => { s with probe := s.probe.start m }))
     (modCtl : ∀ f, CtlKeep f → Pres P (modS f))
     (modCustom : ∀ f, CustomOnly f → Pres P (modS f)) : Base E P (fun _ => True) where
-  okDown0 := fun _ => trivial
+  ownDown := fun _ _ => trivial
   membersApply := fun u _ => Pres.of_onlyMembership hM (membersApply_only u)
   membersApplyExistingIf := fun u cond _ => Pres.of_onlyMembership hM (membersApplyExistingIf_only u cond)
   membersNext := ⟨fun c hc => by
